@@ -1067,7 +1067,8 @@ def run_scenario(sc, budget=300_000, watchdog=20):
     err = None
     ABORT.clear()
     signal.signal(signal.SIGALRM, _on_alarm)
-    signal.setitimer(signal.ITIMER_REAL, watchdog)
+    # (repeating: the exception may be swallowed by the code it interrupts, which then goes on spinning)
+    signal.setitimer(signal.ITIMER_REAL, watchdog, 1.0)
     try:
         loop.run_until_complete(run_sc(sc))
     except Watchdog as e:
@@ -1080,7 +1081,8 @@ def run_scenario(sc, budget=300_000, watchdog=20):
     except BaseException as e:  # noqa: BLE001
         err = f'{type(e).__name__}: {e}'
     finally:
-        signal.setitimer(signal.ITIMER_REAL, 0)
+        # the teardown runs library code too (cancellations, timeout logging): it stays under the watchdog
+        signal.setitimer(signal.ITIMER_REAL, 5.0, 1.0)
         nlog = len(RT.log)
         try:
             # tear the scenario down completely while its tracing state is still installed: every leftover task gets its
@@ -1099,6 +1101,7 @@ def run_scenario(sc, budget=300_000, watchdog=20):
             loop.close()
         except BaseException:
             pass
+        signal.setitimer(signal.ITIMER_REAL, 0)
         asyncio.set_event_loop(None)
         del RT.log[nlog:]          # records made by the teardown are not part of the scenario
         gc.collect()
